@@ -20,6 +20,8 @@ func init() {
 			"NOT decided: when the negotiation phase ends (socket read timeout) and TCP segmentation — timing; segmentation is irrelevant to the handler by construction (it is fed single bytes), which is the decided feed-all clause.",
 		Assumptions: []string{"util.ByteIsAny is membership in the given constant set (its shape is checked under C15/feed-all)"},
 		Mutants: []Mutant{
+			{ID: "C15-negotiation-abandoned-on-data", Desc: "the negotiation loop returns when the server opens with plain data", Rule: "C15/loop-continues",
+				Edits: []Edit{{File: "transport/telnet.go", Old: "\t\tctrlBuf, handleErr = t.handleControlCharResponse(ctrlBuf, charBuf[0])\n\t\tif handleErr != nil {\n\t\t\treturn handleErr\n\t\t}\n", New: "\t\tctrlBuf, handleErr = t.handleControlCharResponse(ctrlBuf, charBuf[0])\n\t\tif handleErr != nil {\n\t\t\treturn handleErr\n\t\t}\n\n\t\tif len(ctrlBuf) == 0 && len(t.initialBuf) == 1 {\n\t\t\treturn t.c.SetReadDeadline(time.Time{})\n\t\t}\n"}}},
 			{ID: "C15-accept-every-do", Desc: "every DO accepted with WILL", Rule: "C15/automaton",
 				Edits: []Edit{{File: "transport/telnet.go", Old: "if cmd == do && c == sga { //nolint: gocritic", New: "if cmd == do { //nolint: gocritic"}}},
 			{ID: "C15-no-reset", Desc: "control buffer not reset after a reply", Rule: "C15/automaton",
@@ -47,6 +49,8 @@ func runC15(c *Ctx, r *Report) {
 	importFoundation(c, r, "C15", "transport-pipe")
 	r.Rule("C15/automaton", "every cell of the negotiation automaton (state x byte class [x verb]) has exactly the specified effects", 40)
 	r.Rule("C15/feed-all", "the negotiation loop hands every byte read to the handler, threads the control buffer, and aborts on a handler error", 3)
+	r.Rule("C15/loop-continues", "after a byte was handled without error the negotiation loop reads the next byte: it ends only on the read timeout or an error", 1)
+	checkTelnetLoopContinues(c, r, "C15/loop-continues")
 	r.Rule("C15/first-read", "Telnet.Read returns the bytes buffered during negotiation first and clears them on that path", 1)
 
 	fn := c.LookupFunc("transport", "Telnet", "handleControlCharResponse")
